@@ -27,7 +27,7 @@ def build_seq(bdir):
         "acquire-core-libs/src/acquire-core-platform/linux/platform.c",
         "acquire-core-libs/src/acquire-core-logger/logger.c",
         os.path.join(HARNESS, "channel/chan_seq.cpp")])
-    return link(os.path.join(bdir, "chan_seq"), objs, wraps(["condition_variable_wait"]))
+    return link(os.path.join(bdir, "chan_seq"), objs, wraps(["condition_variable_wait", "lock_acquire"]))
 
 
 def impl_cfg(path, cap, nr, maxw, acc, fixed=1, export=False, sample=1, props=True):
@@ -222,6 +222,8 @@ def main(prop, tier):
         rc, out = run([exe, "replay", txt, str(cap), str(nr)], timeout=900)
         try:
             res = json.loads(out.strip().splitlines()[-1])
+            if 'replayed' not in res:
+                raise ValueError("not a result line")
         except Exception:
             crash_or_broken(rc, out, "chan_seq_replay", "chan_seq replay of ChannelImpl transitions (cap=%d readers=%d)" % (cap, nr))
         mism = [l for l in out.splitlines() if l.startswith("MISMATCH")]
@@ -233,6 +235,8 @@ def main(prop, tier):
         rc, out = run([exe, "explore", str(cap), str(nr), str(mw), str(int(acc)), str(maxst), pre, "400000"], timeout=1200)
         try:
             res = json.loads(out.strip().splitlines()[-1])
+            if 'chunks' not in res:
+                raise ValueError("not a result line")
         except Exception:
             crash_or_broken(rc, out, "chan_seq_explore", "chan_seq exploration (cap=%d readers=%d maxwrite=%d)" % (cap, nr, mw))
         chunks = [pre + ".%04d.ndjson" % i for i in range(res["chunks"])]
@@ -256,6 +260,8 @@ def main(prop, tier):
         rc, out = run([exe, "random", str(sd), str(nprog), "120", rnd_trace], timeout=600)
         try:
             rnd = json.loads(out.strip().splitlines()[-1])
+            if 'programs' not in rnd:
+                raise ValueError("not a result line")
         except Exception:
             crash_or_broken(rc, out, "chan_seq_random", "chan_seq random programs (seed %d)" % sd)
         mc_res = [f.result() for f in f_mc]
